@@ -4,6 +4,7 @@ import os
 PLAN = {
     # property: {tier: [flavours]}
     "C18": {"quick": ["asan"], "thorough": ["asan", "dev"]},
+    "C08": {"quick": ["dev", "asan"], "thorough": ["dev", "asan"]},
 }
 
 
